@@ -18,6 +18,17 @@ CHECKS = {
             "DESIGN.md section 3 C20"),
 }
 
+CHECKS["C01"] = (
+    "autograd-Jacobian monitor: per-item reverse-mode Jacobian of the real forward pass (float64 world) -> slogdet vs the "
+    "returned logabsdet, over the whole transform zoo x configurations x parameter policies x structured inputs; spline "
+    "functions driven directly with non-default boxes; hand-chained sum for composites; finite-difference cross-check (thorough)",
+    "Every batch item's returned log-abs-det is compared with slogdet of that item's autograd Jacobian to 1e-7 (observed "
+    "noise <= 2e-11), for all 45 transform families incl. wrappers, 2-D and image inputs, with/without context, six parameter "
+    "policies (fresh, zero, randn 0.3/1/3, extreme), inputs on knots' neighbours, end-points and tail bounds. Sampled, not exhaustive.",
+    "Trusts torch autograd for torch ops (cross-checked by central differences for the spline functions on the thorough tier); "
+    "items with cond(J) > 1e8 or saturated outputs are counted and skipped as not decidable in float64; UMNN to 1e-6.",
+    "DESIGN.md section 3 C01")
+
 PENDING_REASON = "check not built yet in this session (planned, see DESIGN.md section 3); not claimed until it exists and is calibrated"
 
 
